@@ -178,4 +178,81 @@ theorem C09_model_uses_source_pieces (target host ctype body : Bytes) :
       build (str "POST") target host ((Gen.Request.postHeaders.map (·.1)).zip [str (toString body.length), ctype] |>.map
         (fun r => (str r.1, r.2))) body := ⟨rfl, rfl, rfl⟩
 
+/-! ## Subscribe / unsubscribe payloads: exactly the ids of the call, each once, in order -/
+
+/-- **Every id the caller asked for reaches the wire exactly once, in the caller's order**: the payloads of the
+    requests `_update_subscriptions` sends, concatenated, are the argument list - nothing added (no id of an earlier
+    call), nothing dropped, nothing repeated - whatever mix of accessory ids the caller passes. -/
+theorem C09_subscribe_payloads_flatten (ids : List (Nat × Nat)) : (groupByAid ids).flatten = ids := by
+  induction ids with
+  | nil => rfl
+  | cons x xs ih =>
+    simp only [groupByAid]
+    cases hg : groupByAid xs with
+    | nil =>
+      rw [hg] at ih
+      simp only [List.flatten_nil] at ih
+      simp [← ih]
+    | cons g gs =>
+      rw [hg] at ih
+      cases g with
+      | nil => simp only [List.flatten_cons, List.nil_append] at ih ⊢; simp [ih]
+      | cons y ys =>
+        simp only
+        split
+        · simp only [List.flatten_cons, List.cons_append] at ih ⊢; rw [ih]
+        · simp only [List.flatten_cons, List.cons_append, List.nil_append] at ih ⊢; rw [ih]
+
+/-- every request names a single accessory id (one aid at a time, as iOS does) and is never empty -/
+theorem C09_subscribe_payload_single_aid (ids : List (Nat × Nat)) :
+    ∀ g ∈ groupByAid ids, g ≠ [] ∧ ∀ a ∈ g, ∀ b ∈ g, a.1 = b.1 := by
+  induction ids with
+  | nil => intro g hg; simp [groupByAid] at hg
+  | cons x xs ih =>
+    intro g hg
+    simp only [groupByAid] at hg
+    cases hgx : groupByAid xs with
+    | nil =>
+      rw [hgx] at hg
+      simp only [List.mem_singleton] at hg
+      subst hg
+      exact ⟨by simp, by intro a ha b hb; simp at ha hb; rw [ha, hb]⟩
+    | cons g0 gs =>
+      rw [hgx] at hg ih
+      cases g0 with
+      | nil =>
+        simp only [List.mem_cons] at hg
+        rcases hg with rfl | hg
+        · exact ⟨by simp, by intro a ha b hb; simp at ha hb; rw [ha, hb]⟩
+        · exact ih g (by simp [hg])
+      | cons y ys =>
+        simp only at hg
+        have ih0 := ih (y :: ys) (by simp)
+        split at hg
+        · rename_i hxy
+          simp only [List.mem_cons] at hg
+          rcases hg with rfl | hg
+          · refine ⟨by simp, ?_⟩
+            intro a ha b hb
+            have hy : ∀ c ∈ y :: ys, c.1 = y.1 := fun c hc => ih0.2 c hc y (by simp)
+            have ha' : a.1 = y.1 := by
+              simp only [List.mem_cons] at ha
+              rcases ha with rfl | ha
+              · exact hxy
+              · exact hy a (by simpa using ha)
+            have hb' : b.1 = y.1 := by
+              simp only [List.mem_cons] at hb
+              rcases hb with rfl | hb
+              · exact hxy
+              · exact hy b (by simpa using hb)
+            rw [ha', hb']
+          · exact ih g (by simp [hg])
+        · simp only [List.mem_cons] at hg
+          rcases hg with rfl | rfl | hg
+          · exact ⟨by simp, by intro a ha b hb; simp at ha hb; rw [ha, hb]⟩
+          · exact ih0
+          · exact ih g (by simp [hg])
+
+example : groupByAid [(1, 9), (1, 10), (2, 9), (1, 11)] = [[(1, 9), (1, 10)], [(2, 9)], [(1, 11)]] := by decide
+
 end HapVerif.C09
